@@ -106,6 +106,10 @@ func classify(a gmodel.Assignment, lhs, rhs string) string {
 	case gmodel.SliceTypecastAssignment:
 		return "slice-cast"
 	case gmodel.NestStruct:
+		if x.NullCheckExpr != "" && len(x.Contents) == 1 {
+			// a nil guard around one assignment (String() on a pointer, an explicit path)
+			return classify(x.Contents[0], lhs, rhs)
+		}
 		return "nested"
 	}
 	return "unknown"
@@ -126,6 +130,9 @@ func lhsOf(a gmodel.Assignment) string {
 	case gmodel.SliceTypecastAssignment:
 		return x.LHS
 	case gmodel.NestStruct:
+		if x.NullCheckExpr != "" && len(x.Contents) == 1 {
+			return lhsOf(x.Contents[0]) // a nil guard around one assignment
+		}
 		// the nested struct's own path is the common prefix of its contents
 		if len(x.Contents) > 0 {
 			l := lhsOf(x.Contents[0])
